@@ -131,6 +131,12 @@ func init() {
 	// what belongs to one script does not leak into the next (operation count, offset, early-return mark, separator)
 	addRule("C05", rule{name: "S-perscript", run: ruleSPerScript})
 	addRule("C07", rule{name: "S-perscript", run: ruleSPerScript})
+	addRule("C13", rule{name: "T-asm", run: ruleTAsmReader})
+	addRule("C15", rule{name: "T-b58", run: ruleTB58})
+	// what a codec function hands back is its own (no buffer shared between calls)
+	addRule("C13", rule{name: "O-codec", run: ruleOCodec})
+	addRule("C06", rule{name: "O-codec", run: ruleOCodec})
+	addRule("C04", rule{name: "O-codec", run: ruleOCodec})
 	// the inscription is written with EncodeParts' pushes: each part behind its shortest prefix, nothing else
 	addRule("C20", rule{name: "W-enc", run: ruleWEnc})
 	addRule("C20", rule{name: "E-use", run: func(c *Ctx) { ruleEUse(c, ordEntries, 10) }})
